@@ -246,7 +246,15 @@ pub fn run_c08(ctx: &Ctx) -> (&'static str, Map<String, Value>) {
 #[derive(Clone, Debug, serde::Serialize, serde::Deserialize)]
 pub enum C11Case {
     /// keygen with a parameter list given as raw (ots, lms) codes (valid codes only; length arbitrary)
-    Keygen { hid: Hid, params: Vec<Param>, aux_len: Option<usize>, aux_fill: u8 },
+    Keygen {
+        hid: Hid,
+        params: Vec<Param>,
+        aux_len: Option<usize>,
+        aux_fill: u8,
+        /// explicit buffer contents (overrides aux_len / aux_fill)
+        #[serde(default)]
+        aux: Option<String>,
+    },
     /// sign / lifetime with arbitrary key bytes
     Key { hid: Hid, key: String, entry: Entry, aux: Option<String> },
 }
@@ -254,10 +262,14 @@ pub enum C11Case {
 pub fn c11_eval(case: &C11Case) -> Vec<Viol> {
     let mut v = vec![];
     match case {
-        C11Case::Keygen { hid, params, aux_len, aux_fill } => {
+        C11Case::Keygen { hid, params, aux_len, aux_fill, aux } => {
             let m = Model::new(*hid);
             let seed = vec![7u8; hid.n()];
-            let mut aux = aux_len.map(|l| vec![*aux_fill; l]);
+            let mut aux = match aux {
+                Some(a) => Some(unhex(a)),
+                None => aux_len.map(|l| vec![*aux_fill; l]),
+            };
+            let aux_len = &aux.as_ref().map(|a| a.len());
             let r = lib_api::keygen(*hid, params, &seed, aux.as_mut());
             let want = m.keygen(params, &seed);
             match (r, want) {
@@ -350,12 +362,12 @@ pub fn c11_cases(ctx: &Ctx) -> Vec<C11Case> {
         for l in 0..=10usize {
             for (h, w) in [(2u32, 4u32), (5, 8)] {
                 let uni: Vec<Param> = (0..l).map(|_| p(w, h)).collect();
-                cases.push(C11Case::Keygen { hid, params: uni.clone(), aux_len: None, aux_fill: 0 });
+                cases.push(C11Case::Keygen { hid, params: uni.clone(), aux_len: None, aux_fill: 0, aux: None });
                 if l >= 1 {
                     for pos in [0, l / 2, l - 1] {
                         let mut odd = uni.clone();
                         odd[pos] = p(1, 2);
-                        cases.push(C11Case::Keygen { hid, params: odd, aux_len: None, aux_fill: 0 });
+                        cases.push(C11Case::Keygen { hid, params: odd, aux_len: None, aux_fill: 0, aux: None });
                     }
                 }
             }
@@ -366,7 +378,7 @@ pub fn c11_cases(ctx: &Ctx) -> Vec<C11Case> {
             for top in [2u32, 5] {
                 let mut l = vec![p(4, top)];
                 l.extend(tail.iter().map(|h| p(8, *h)));
-                cases.push(C11Case::Keygen { hid, params: l, aux_len: None, aux_fill: 0 });
+                cases.push(C11Case::Keygen { hid, params: l, aux_len: None, aux_fill: 0, aux: None });
             }
         }
         // keygen with every aux length around the header and every fill
@@ -376,7 +388,36 @@ pub fn c11_cases(ctx: &Ctx) -> Vec<C11Case> {
             lens.extend([full - 1, full, full + 1, full + n, 2 * full]);
             for l in lens {
                 for fill in [0u8, 1, 0x80, 0xff] {
-                    cases.push(C11Case::Keygen { hid, params: params.clone(), aux_len: Some(l), aux_fill: fill });
+                    cases.push(C11Case::Keygen { hid, params: params.clone(), aux_len: Some(l), aux_fill: fill, aux: None });
+                }
+            }
+        }
+        // keygen with a buffer that an earlier keygen of the same seed filled: exact, every truncation around the
+        // end, trailing bytes (the caller's whole allocation instead of the shrunk slice), every value of
+        // the level word
+        for params in [vec![p(4, 2)], vec![p(4, 5), p(4, 2)]] {
+            let kseed = vec![7u8; n];
+            let full = m.aux_layout(m.lms_h(params[0].lms).unwrap(), 1 << 20).1;
+            let valid = m.aux_build(&params, &kseed, full);
+            let mut push = |a: Vec<u8>| cases.push(C11Case::Keygen { hid, params: params.clone(), aux_len: None, aux_fill: 0, aux: Some(hex::encode(a)) });
+            for cut in 0..=(n + 6).min(valid.len()) {
+                push(valid[..valid.len() - cut].to_vec());
+            }
+            for extra in [1usize, 2, n - 1, n, n + 1, full, 1000] {
+                for fill in [0u8, 0xff] {
+                    let mut a = valid.clone();
+                    a.resize(valid.len() + extra, fill);
+                    push(a);
+                }
+            }
+            for pos in 0..4usize {
+                for val in 0..=255u8 {
+                    if val == valid[pos] || (!th && val % 5 != 0 && val < 0xf0) {
+                        continue;
+                    }
+                    let mut a = valid.clone();
+                    a[pos] = val;
+                    push(a);
                 }
             }
         }
@@ -423,6 +464,15 @@ pub fn c11_cases(ctx: &Ctx) -> Vec<C11Case> {
                     cases.push(C11Case::Key { hid, key: hex::encode(&key), entry, aux: Some(hex::encode(&valid[..l])) });
                     cases.push(C11Case::Key { hid, key: hex::encode(&key), entry, aux: Some(hex::encode(vec![0u8; l])) });
                     cases.push(C11Case::Key { hid, key: hex::encode(&key), entry, aux: Some(hex::encode(vec![0xffu8; l])) });
+                }
+                // the valid buffer followed by trailing bytes
+                let exact = m.aux_build(&params, &seed, full);
+                for extra in [0usize, 1, 2, n - 1, n, n + 1, full, 1000] {
+                    for fill in [0u8, 0xff] {
+                        let mut a = exact.clone();
+                        a.resize(exact.len() + extra, fill);
+                        cases.push(C11Case::Key { hid, key: hex::encode(&key), entry, aux: Some(hex::encode(&a)) });
+                    }
                 }
                 for pos in 0..4usize {
                     for val in 0..=255u8 {
@@ -567,6 +617,55 @@ pub fn c16_probe(hid: Hid, ty: &str, trigger_drop: bool) -> Vec<Viol> {
                     &secret,
                     trigger_drop,
                 ),
+                // every lifetime state of a tree, constructed directly and reached through the real
+                // hand-out operation (including the refused request on a used-up tree)
+                "LmsPrivateKey@every-state" => {
+                    let mut present = true;
+                    let mut after = None;
+                    for lms in [hbs_lms::LmsAlgorithm::LmsH2, hbs_lms::LmsAlgorithm::LmsH5] {
+                        let leaves = 1u32 << lms.construct_parameter::<H>().unwrap().get_tree_height();
+                        let fresh = |used: u32| vh::LmsPrivateKey::<H>::new(mk_seed(), [0x3cu8; 16], used, hbs_lms::LmotsAlgorithm::LmotsW4.construct_parameter::<H>().unwrap(), lms.construct_parameter::<H>().unwrap());
+                        for used in 0..=leaves + 1 {
+                            let r = wipe_probe(|| fresh(used), &secret, trigger_drop);
+                            present &= r.0;
+                            after = after.or(r.1);
+                            // the same state reached by handing out `used` one-time keys from a new tree
+                            let r = wipe_probe(
+                                || {
+                                    let mut k = fresh(0);
+                                    for _ in 0..used {
+                                        let _ = k.use_lmots_private_key();
+                                    }
+                                    k
+                                },
+                                &secret,
+                                trigger_drop,
+                            );
+                            // (a tree that wipes its seed once it is used up is fine: presence is only
+                            // required while one-time keys are left)
+                            if used < leaves {
+                                present &= r.0;
+                            }
+                            after = after.or(r.1);
+                        }
+                    }
+                    (present, after)
+                }
+                "ReferenceImplPrivateKey@every-state" => {
+                    let m = Model::new(hid);
+                    let mut present = true;
+                    let mut after = None;
+                    for params in [vec![p(4, 2), p(4, 2)], vec![p(4, 5)]] {
+                        let total = Model::total_leaves(&m.heights(&params)) as u64;
+                        for c in 0..total {
+                            let blob = m.make_blob(c, &params, &secret);
+                            let r = wipe_probe(|| vh::ReferenceImplPrivateKey::<H>::from_binary_representation(&blob).unwrap(), &secret, trigger_drop);
+                            present &= r.0;
+                            after = after.or(r.1);
+                        }
+                    }
+                    (present, after)
+                }
                 "LmotsPrivateKey" => {
                     // secret = the chain start values derived from the seed
                     let m = Model::new(hid);
@@ -614,7 +713,7 @@ pub fn c16_replay(case: &Value) -> Result<Vec<Viol>, String> {
     Ok(c16_probe(hid, case["type"].as_str().unwrap_or(""), case["drop"].as_bool().unwrap_or(true)))
 }
 
-pub const C16_TYPES: [&str; 8] = ["Seed", "SeedAndLmsTreeIdentifier", "ReferenceImplPrivateKey", "LmsPrivateKey", "LmotsPrivateKey", "Seed::from([u8;32])", "SeedAndLmsTreeIdentifier(Seed::from)", "ReferenceImplPrivateKey::generate(Seed::from)"];
+pub const C16_TYPES: [&str; 10] = ["LmsPrivateKey@every-state", "ReferenceImplPrivateKey@every-state", "Seed", "SeedAndLmsTreeIdentifier", "ReferenceImplPrivateKey", "LmsPrivateKey", "LmotsPrivateKey", "Seed::from([u8;32])", "SeedAndLmsTreeIdentifier(Seed::from)", "ReferenceImplPrivateKey::generate(Seed::from)"];
 
 pub fn run_c16(ctx: &Ctx) -> (&'static str, Map<String, Value>) {
     let mut evals = 0u64;
